@@ -252,6 +252,83 @@ func streamMsg(m cqrs.JSONMarshaler, k int, i int) (*message.Message, string, an
 
 const nStream = 10
 
+// The ack flags have one documented role each (AckCommandHandlingErrors: what happens to a *handler error*;
+// AckOnUnknownEvent: what happens to a message *no handler is registered for*). A message of a registered type
+// whose payload cannot be decoded is neither: however a processor settles it, the flag must not change that.
+func malformedFlagScenario() *explore.Scenario {
+	return &explore.Scenario{Name: "processor/malformed-payload-settlement-independent-of-flags", C: -1, DataOnly: true, Body: func() {
+		kind := []string{"command", "event", "group"}[vs.Choose(3, 0, "processor kind")]
+		m := jsonM(vs.Choose(len(generators), 0, "name generator"))
+		handled := 0
+		settled := map[bool]string{}
+		for _, flag := range []bool{false, true} {
+			bad, _, _ := streamMsg(m, 9, 0)
+			good, _, _ := streamMsg(m, 1, 1) // &A{}
+			sub := hx.NewScriptSub("s", map[string][]*message.Message{"topic": {bad, good}})
+			r, _ := message.NewRouter(message.RouterConfig{}, nil)
+			var err error
+			switch kind {
+			case "command":
+				var p *cqrs.CommandProcessor
+				p, err = cqrs.NewCommandProcessorWithConfig(r, cqrs.CommandProcessorConfig{
+					GenerateSubscribeTopic:   func(cqrs.CommandProcessorGenerateSubscribeTopicParams) (string, error) { return "topic", nil },
+					SubscriberConstructor:    func(cqrs.CommandProcessorSubscriberConstructorParams) (message.Subscriber, error) { return sub, nil },
+					Marshaler:                m,
+					AckCommandHandlingErrors: flag,
+				})
+				if err == nil {
+					err = p.AddHandlers(cqrs.NewCommandHandler("h", func(ctx context.Context, v *A) error { handled++; return nil }))
+				}
+			case "event":
+				var p *cqrs.EventProcessor
+				p, err = cqrs.NewEventProcessorWithConfig(r, cqrs.EventProcessorConfig{
+					GenerateSubscribeTopic: func(cqrs.EventProcessorGenerateSubscribeTopicParams) (string, error) { return "topic", nil },
+					SubscriberConstructor:  func(cqrs.EventProcessorSubscriberConstructorParams) (message.Subscriber, error) { return sub, nil },
+					Marshaler:              m,
+					AckOnUnknownEvent:      flag,
+				})
+				if err == nil {
+					err = p.AddHandlers(cqrs.NewEventHandler("h", func(ctx context.Context, v *A) error { handled++; return nil }))
+				}
+			default:
+				var p *cqrs.EventGroupProcessor
+				p, err = cqrs.NewEventGroupProcessorWithConfig(r, cqrs.EventGroupProcessorConfig{
+					GenerateSubscribeTopic: func(cqrs.EventGroupProcessorGenerateSubscribeTopicParams) (string, error) { return "topic", nil },
+					SubscriberConstructor:  func(cqrs.EventGroupProcessorSubscriberConstructorParams) (message.Subscriber, error) { return sub, nil },
+					Marshaler:              m,
+					AckOnUnknownEvent:      flag,
+				})
+				if err == nil {
+					err = p.AddHandlersGroup("g", cqrs.NewGroupEventHandler(func(ctx context.Context, v *A) error { handled++; return nil }))
+				}
+			}
+			if err != nil {
+				vs.Fail("setup", "%v", err)
+				return
+			}
+			go func() {
+				if err := r.Run(context.Background()); err != nil {
+					vs.Fail("run-result", "%v", err)
+				}
+			}()
+			<-r.Running()
+			vs.Quiesce()
+			ds := sub.Snapshot()
+			if len(ds) == 0 {
+				vs.Fail("intake", "nothing delivered")
+				return
+			}
+			settled[flag] = hx.SettlementOf(ds[0].Msg)
+			r.Close()
+			vs.Quiesce()
+		}
+		if settled[false] != settled[true] {
+			vs.Fail("ack-policy", "%s processor: a message of a registered type with an undecodable payload is %s with the ack flag off and %s with it on (the flag is about handler errors / unregistered types only)", kind, settled[false], settled[true])
+		}
+		vs.Note("%s: %s", kind, settled[false])
+	}}
+}
+
 func processorScenario(kind string, n int, c int) *explore.Scenario {
 	name := fmt.Sprintf("processor/%s/stream%d", kind, n)
 	if c >= 0 {
@@ -610,6 +687,7 @@ func init() {
 	}
 	add(reg.Quick, 1, func(t reg.Tier) *explore.Scenario { return busScenario() })
 	add(reg.Quick, 1, func(t reg.Tier) *explore.Scenario { return busFaultScenario() })
+	add(reg.Quick, 1, func(t reg.Tier) *explore.Scenario { return malformedFlagScenario() })
 	add(reg.Quick, 1, func(t reg.Tier) *explore.Scenario { return protoScenario() })
 	for _, k := range []string{"command", "event", "group"} {
 		k := k
